@@ -132,8 +132,11 @@ func (w *world) materialise(nodes []nodeJ, sentinel bool) error {
 	// time stamps last (deep to shallow so that parents keep theirs)
 	sort.SliceStable(sorted, func(i, j int) bool { return len(sorted[i].P) > len(sorted[j].P) })
 	for _, n := range sorted {
-		if n.Mtime > 0 && n.Kind != "link" {
+		if n.Mtime != 0 && n.Kind != "link" {
 			t := time.Unix(n.Mtime, 0)
+			if n.Mtime == -1 { // the epoch itself
+				t = time.Unix(0, 0)
+			}
 			if err := os.Chtimes(segPath(w.root, n.P), t, t); err != nil {
 				return err
 			}
